@@ -47,11 +47,13 @@ public:
 
   trompeloeil::lifetime_monitor*&
   trompeloeil_expect_death(
-    trompeloeil::lifetime_monitor* monitor)
+    trompeloeil::lifetime_monitor* monitor,
+    trompeloeil::lifetime_monitor*& older)
   const
   noexcept
   {
     auto lock = get_lock();
+    older = trompeloeil_lifetime_monitor.leak();
     trompeloeil_lifetime_monitor = monitor;
     return trompeloeil_lifetime_monitor.leak();
   }
@@ -69,7 +71,7 @@ struct lifetime_monitor : public expectation
     char const* call_name_,
     location loc_)
   noexcept
-    : object_monitor(obj.trompeloeil_expect_death(this))
+    : object_monitor(obj.trompeloeil_expect_death(this, older_monitor))
       , loc(loc_)
       , object_name(obj_name_)
       , invocation_name(invocation_name_)
@@ -97,11 +99,21 @@ struct lifetime_monitor : public expectation
       std::ostringstream os;
       os << "Object " << object_name << " is still alive";
       send_report<specialized>(severity::nonfatal, loc, os.str());
-      object_monitor = nullptr; // prevent its death poking this cadaver
+      // prevent its death poking this cadaver
+      for (auto m = &object_monitor; *m; m = &(*m)->older_monitor)
+      {
+        if (*m == this)
+        {
+          *m = older_monitor;
+          break;
+        }
+      }
     }
   }
 
   lifetime_monitor& operator=(lifetime_monitor const&) = delete;
+
+  lifetime_monitor  *older_monitor; // earlier requirement on the same object
 
   void
   notify()
@@ -149,7 +161,10 @@ deathwatched<T>::~deathwatched()
   auto lock = get_lock();
   if (trompeloeil_lifetime_monitor)
   {
-    trompeloeil_lifetime_monitor->notify();
+    for (auto m = trompeloeil_lifetime_monitor.leak(); m; m = m->older_monitor)
+    {
+      m->notify();
+    }
     return;
   }
   std::ostringstream os;
